@@ -9,6 +9,8 @@ O=/var/tmp/regress; mkdir -p $O
 cd /verif
 ./check all 2>&1 | grep -E "^(VIOLATION|KNOWN-FINDING|C[0-9]+:)" > $O/quick.log
 for p in C01 C02 C03 C04 C05 C06 C07 C08 C09 C10 C11 C12 C13 C14 C15 C16 C17 C18 C19 C20; do ./check $p --tier thorough 2>&1 | grep -E "^(VIOLATION|C[0-9]+:)"; done > $O/thorough.log
+[ -d /var/tmp/zkmut2 ] || git -C /repo worktree add -q --detach /var/tmp/zkmut2 HEAD || exit 3
+git -C /var/tmp/zkmut2 checkout -q --detach "$(git -C /repo rev-parse HEAD)" && git -C /var/tmp/zkmut2 checkout -q -- . || exit 3
 # three lanes on three trees: mutants on /var/tmp/zkmut, benign refactors on /var/tmp/zkmut2, seeded changes on /repo
 (tools/mut.sh "" > $O/mutants.log 2>&1) &
 (ZK_REPO=/var/tmp/zkmut2 tools/run_benign.sh > $O/benign.log 2>&1) &
@@ -19,3 +21,5 @@ echo "thorough: $(grep -c ' 0 violations' $O/thorough.log)/20 clean"
 echo "mutants:  $(tail -1 $O/mutants.log)"
 echo "seeds:    $(grep -E '^missed' $O/seeds.log)"
 echo "benign:   $(grep -E '^alarms' $O/benign.log)"
+# the scratch worktrees are removed again (they are re-created on demand)
+git -C /repo worktree remove --force /var/tmp/zkmut 2>/dev/null; git -C /repo worktree remove --force /var/tmp/zkmut2 2>/dev/null; git -C /repo worktree prune
